@@ -12,8 +12,11 @@ TRUSTED = pq_shared.PQ_TRUSTED + ['codecs file writer writes the same text as pr
 ASSUMPTIONS = ['Prince/grammar.txt lists single variables (what prince_metrics counts)']
 
 
-def prince_spec(rng):
-    spec = gen_rulesets.gen_ruleset(rng, max_structs=3, max_pos=3, max_groups=3, max_vals=3, markov=False,
+def prince_spec(rng, ngram=None):
+    # PRINCE-LING loads the whole ruleset, the OMEN part included: every n-gram size the trainer offers (--ngram 2..5)
+    import gen_omen
+    om = gen_omen.gen_omen(rng, ngram=ngram or rng.choice([2, 3, 4, 5]), nletters=2, maxlen_extra=0)
+    spec = gen_rulesets.gen_ruleset(rng, max_structs=3, max_pos=3, max_groups=3, max_vals=3, markov=False, omen=om,
                                     mode=rng.choice(['dyadic', 'dyadic', 'float']))
     types = [t for t in spec['terminals'] if t[0] != 'C']
     rng.shuffle(types)
@@ -69,7 +72,8 @@ def run(ctx):
             for v in r['violations']:
                 viol.append(dict(v, property='C17', kind='not-each-once' if v['property'] == 'C02' else v['kind'], witness={'spec': spec, 'all_lower': lower}))
     for i in range(ctx.scale(10, 50)):
-        spec = prince_spec(rng)
+        spec = prince_spec(rng, ngram=2 + i % 4)
+        dist.setdefault('omen_ngram', {})[str(2 + i % 4)] = dist.get('omen_ngram', {}).get(str(2 + i % 4), 0) + 1
         name = f"pr{i % 6}"
         d = common.install_ruleset(spec, name)
         # the first rulesets are run under both settings one after the other on the same installed directory (anything a run leaves
